@@ -242,6 +242,29 @@ def run_locroute(chk, F, rid="R-LOCROUTE"):
                "%s adds the prefix %s instead of %s" % (cb, pre, prefix), "%s:%s" % (cf["file"], cf["line"]))
 
 
+def attributes_read(F, body):
+    """names of the XML attributes a piece of reader code asks for: literal arguments of getAttribute and of the
+    reader's own wrappers around it (methods that hand a parameter on to getAttribute / xmlTextReaderGetAttribute)"""
+    wrappers = {"getAttribute", "xmlTextReaderGetAttribute"}
+    for _ in range(3):
+        for q, fns in F.by_q.items():
+            if not q.startswith("UTAP::XMLReader::"):
+                continue
+            for fn in fns:
+                if fn.get("body") is None or fn["name"] in wrappers:
+                    continue
+                pn = {p_["name"] for p_ in fn.get("params", [])}
+                for c in calls(fn["body"]):
+                    if c.get("name") in wrappers and any(y.get("k") == "ref" and y.get("name") in pn
+                                                         for a in c.get("args", []) for y in walk(a)):
+                        wrappers.add(fn["name"])
+    out = []
+    for c in calls(body):
+        if c.get("name") in wrappers:
+            out += [x["v"] for x in walk(c.get("args", [])) if x.get("k") == "str"]
+    return out
+
+
 def run_endpoints(chk, F, rid="R-ENDPT"):
     chk.rule(rid, "<source ref>, <target ref> and the controllable attribute reach edge_t::src|srcb, dst|dstb and control "
                   "through matching argument positions of proc_edge_begin and add_edge; <init ref> reaches "
@@ -340,8 +363,7 @@ def run_endpoints(chk, F, rid="R-ENDPT"):
     # init
     ini = F.fn("UTAP::XMLReader::init")
     okini = any(c.get("name") == "proc_location_init" for c in calls(ini["body"])) and \
-        any(c.get("name") == "get_name" for c in calls(ini["body"])) and \
-        [x["v"] for c in calls(ini["body"], "getAttribute") for x in walk(c.get("args", [])) if x.get("k") == "str"] == ["ref"]
+        any(c.get("name") == "get_name" for c in calls(ini["body"])) and attributes_read(F, ini["body"]) == ["ref"]
     chk.ob(rid, "init|ref", okini, "XMLReader::init does not pass the name of the <init ref> location to the builder",
            "%s:%s" % (ini["file"], ini["line"]))
     pli = F.nfn(DB + "::proc_location_init")
@@ -792,3 +814,179 @@ def run_wholetext(chk, F, rid="R-WHOLETEXT"):
     if n < 1:
         raise AnalysisBroken("%s: the XML reader does not read any node value (anchor gone)" % rid)
     chk.analysed[rid] = {"value_reads": n, "gathering_functions": sorted(gatherers)}
+
+
+# ------------------------------------------------------------------------------------------ R-LOOPEND
+def _reader_outcomes(F, fn, depth=0):
+    """[(consumed, value)] over the paths of an element-reading method: consumed = whether a begin(TAG) test on the path
+    succeeded (the reader moved into an element), value = what the method returns there (a literal, or "?").  Branches
+    other than the begin() test are both taken; a returned local takes the literals assigned to it on the path."""
+    out = []
+
+    def lit(e, env):
+        e = _strip(e) if isinstance(e, dict) else None
+        if not isinstance(e, dict):
+            return "?"
+        if e.get("k") in ("int", "bool"):
+            return int(e["v"]) if e["k"] == "int" else bool(e["v"])
+        if e.get("k") == "un" and e.get("op") == "-" and _strip(e["e"]).get("k") == "int":
+            return -_strip(e["e"])["v"]
+        if e.get("k") == "ref" and e.get("name") in env:
+            return env[e["name"]]
+        return "?"
+
+    def is_begin(c):
+        c = _strip(c)
+        return isinstance(c, dict) and c.get("k") == "call" and c.get("name") == "begin" and "XMLReader" in (c.get("cls") or "")
+
+    def run(stmts, i, env, consumed, budget):
+        if budget[0] <= 0:
+            return
+        while i < len(stmts):
+            s = stmts[i]
+            k = s.get("k") if isinstance(s, dict) else None
+            if k == "block":
+                return run(list(s.get("s", [])) + stmts[i + 1:], 0, env, consumed, budget)
+            if k == "decl":
+                for v in s.get("vars", []):
+                    if v.get("init") is not None:
+                        env = dict(env)
+                        env[v["name"]] = lit(v["init"], env)
+            elif k == "bin" and s.get("op") == "=" and _strip(s["lhs"]).get("k") == "ref":
+                env = dict(env)
+                env[_strip(s["lhs"])["name"]] = lit(s["rhs"], env)
+            elif k in ("return", "cret"):
+                budget[0] -= 1
+                out.append((consumed, lit(s.get("e"), env) if s.get("e") is not None else None))
+                return
+            elif k == "throw":
+                return
+            elif k == "if":
+                rest = stmts[i + 1:]
+                if is_begin(s["c"]):
+                    run([s["then"]] + rest, 0, env, True, budget)
+                    run(([s["else"]] if s.get("else") is not None else []) + rest, 0, env, consumed, budget)
+                else:
+                    run([s["then"]] + rest, 0, env, consumed, budget)
+                    run(([s["else"]] if s.get("else") is not None else []) + rest, 0, env, consumed, budget)
+                return
+            elif k == "try":
+                rest = stmts[i + 1:]
+                run([s.get("body")] + rest, 0, env, consumed, budget)
+                for h in s.get("handlers", []) or []:
+                    run([h.get("body")] + rest, 0, env, consumed, budget)
+                return
+            elif k in ("while", "for", "do", "rangefor"):
+                # the body may run or not; assignments in it are kept as alternatives by running it once
+                rest = stmts[i + 1:]
+                run([s.get("body")] + rest, 0, env, consumed, budget)
+                run(rest, 0, env, consumed, budget)
+                return
+            i += 1
+        budget[0] -= 1
+        out.append((consumed, None))
+    body = fn.get("body") or {}
+    run(list(body.get("s", [])), 0, {}, False, [4000])
+    return out
+
+
+def run_loopend(chk, F, rid="R-LOOPEND"):
+    """A loop over the repeated children of an element (labels of a location, locations / transitions of a template,
+    templates) may end only when the next child is not such an element.  The reader is a forward-only recursive descent
+    that never resynchronises: a loop that ends after a child it has consumed but not recognised (a `comments` label
+    between invariant and rate) leaves the rest of the location - and, because the following readers find themselves in
+    the wrong place, the rest of the file - unread, without a diagnostic."""
+    chk.rule(rid, "every loop of the XML reader that is driven by the result of an element-reading method continues "
+                  "whenever that method has moved into an element: on every path of the method on which its begin(TAG) "
+                  "succeeded, the value it returns satisfies the loop condition (and on the others it does not)")
+    readers = {}
+    for q, fns in F.by_q.items():
+        if q.startswith("UTAP::XMLReader::"):
+            for fn in fns:
+                if fn.get("body") is not None and any(c.get("name") == "begin" for c in calls(fn["body"])) and \
+                        fn["name"] not in ("begin", "close", "end"):
+                    readers[fn["name"]] = fn
+    n = 0
+
+    def evalc(c, env):
+        c = _strip(c)
+        if not isinstance(c, dict):
+            return None
+        if c.get("k") == "call" and c.get("name") in readers and "<call>" in env:
+            v = env["<call>"]
+            return None if v in ("?", None) else bool(v)
+        if c.get("k") == "ref" and c.get("name") in env:
+            v = env[c["name"]]
+            return None if v in ("?", None) else bool(v)
+        if c.get("k") == "un" and c.get("op") == "!":
+            v = evalc(c["e"], env)
+            return None if v is None else not v
+        if c.get("k") == "bin" and c.get("op") in ("==", "!=", "<", "<=", ">", ">="):
+            def val(x):
+                x = _strip(x)
+                if x.get("k") == "int":
+                    return x["v"]
+                if x.get("k") == "un" and x.get("op") == "-" and _strip(x["e"]).get("k") == "int":
+                    return -_strip(x["e"])["v"]
+                if x.get("k") == "ref" and x.get("name") in env and env[x["name"]] not in ("?", None):
+                    return int(env[x["name"]])
+                if x.get("k") == "call" and x.get("name") in readers and env.get("<call>") not in ("?", None):
+                    return int(env["<call>"])
+                return None
+            a, b = val(c["lhs"]), val(c["rhs"])
+            if a is None or b is None:
+                return None
+            return {"==": a == b, "!=": a != b, "<": a < b, "<=": a <= b, ">": a > b, ">=": a >= b}[c["op"]]
+        return None
+    for q, fns in sorted(F.by_q.items()):
+        if not q.startswith("UTAP::XMLReader::"):
+            continue
+        for fn in fns:
+            if fn.get("body") is None:
+                continue
+            for lp in walk(fn["body"]):
+                if lp.get("k") not in ("while", "for", "do") or lp.get("c") is None:
+                    continue
+                cond = lp["c"]
+                # the reader call that drives the loop: in the condition itself, or assigned to the variable it tests
+                drv, var = None, None
+                for c in calls(cond):
+                    if c.get("name") in readers:
+                        drv = c["name"]
+                if drv is None:
+                    names = {x.get("name") for x in walk(cond) if x.get("k") == "ref" and x.get("dk") == "local"}
+                    for src in [lp.get("init"), lp.get("inc"), lp.get("step"), lp.get("body")]:
+                        for x in walk(src or {}):
+                            tgt, rhs = None, None
+                            if x.get("k") == "decl":
+                                for v in x.get("vars", []):
+                                    if v.get("name") in names and v.get("init") is not None:
+                                        tgt, rhs = v["name"], v["init"]
+                            elif x.get("k") == "bin" and x.get("op") == "=" and _strip(x["lhs"]).get("k") == "ref" and \
+                                    _strip(x["lhs"]).get("name") in names:
+                                tgt, rhs = _strip(x["lhs"])["name"], x["rhs"]
+                            r0 = _strip(rhs) if isinstance(rhs, dict) else None
+                            if tgt and isinstance(r0, dict) and r0.get("k") == "call" and r0.get("name") in readers and \
+                                    src is not lp.get("body"):
+                                drv, var = r0["name"], tgt
+                if drv is None:
+                    continue
+                n += 1
+                bad = []
+                for consumed, value in sorted(set(_reader_outcomes(F, readers[drv])), key=str):
+                    env = {"<call>": value}
+                    if var:
+                        env[var] = value
+                    goes_on = evalc(cond, env)
+                    if goes_on is None:
+                        continue
+                    if consumed and not goes_on:
+                        bad.append("%s() can return %s after it has moved into an element, and the loop `%s` then stops" %
+                                   (drv, value, short(cond)[:40]))
+                chk.ob(rid, "%s|%s" % (fn["name"], drv), not bad,
+                       "XMLReader::%s: %s - the children that follow (and, since the reader never resynchronises, "
+                       "everything after this element) are left unread" % (fn["name"], "; ".join(bad[:2])),
+                       "%s:%s" % (fn["file"], lp.get("l")))
+    if n < 3:
+        raise AnalysisBroken("%s: only %d reader-driven loops found in the XML reader" % (rid, n))
+    chk.analysed[rid] = {"loops": n, "element_readers": len(readers)}
